@@ -437,6 +437,21 @@ def rule_d(ctx):
     st = [n for n in ast.walk(f.node) if isinstance(n, ast.Call) and norm(n.func) == "np.stack"]
     ctx.ob(R, f.qname, "stacked on axis=self.space_dim", len(st) == 1 and any(k.arg == "axis" and norm(k.value) == "self.space_dim" for k in st[0].keywords),
            str([norm(s) for s in st]), f.node)
+    # what is stored is the stack itself: a conversion to the dtype the series had before (self.dtype / self.img.dtype / original_dtype) is a
+    # named contradiction -- appended data that does not fit (float into uint8, float64 into float32) no longer equals the original slice
+    for asg in ast.walk(f.node):
+        if isinstance(asg, ast.Assign) and any(norm(t) == "self.img" for t in asg.targets):
+            v = expand(f.node, asg.value)
+            casts = [c for c in ast.walk(v) if isinstance(c, ast.Call) and ((isinstance(c.func, ast.Attribute) and c.func.attr == "astype" and c.args) or any(k.arg == "dtype" for k in c.keywords))]
+            own = []
+            for c in casts:
+                tgt = c.args[0] if isinstance(c.func, ast.Attribute) and c.func.attr == "astype" and c.args else next(k.value for k in c.keywords if k.arg == "dtype")
+                if norm(tgt) in ("self.dtype", "self.img.dtype", "self.original_dtype") or norm(tgt).startswith("self.img.dtype"):
+                    own.append(norm(c)[:90])
+            if any(isinstance(c, ast.Call) and norm(c.func) == "np.stack" for c in ast.walk(v)):
+                ctx.ob(R, f.qname, "the stack of slices is stored as it is (numpy's common dtype of the slices)", not own,
+                       f"`{own[0] if own else ''}` converts the stacked slices to the dtype of the series so far: appended data that does not fit that dtype is truncated or rounded, "
+                       "so slicing the series no longer returns the image that was appended", asg, evidence=True)
     texts = [norm(n) for n in ast.walk(f.node) if isinstance(n, (ast.Assign, ast.AugAssign, ast.Expr))]
     ctx.ob(R, f.qname, "dates: self first, then image", f"self.date = self.date + {other}.date" in texts and f"self.date.append({other}.date)" in texts
            or any(t.startswith("self.date = ") and t.index("self.date", 11) < t.index(f"{other}.date") for t in texts if f"{other}.date" in t and t.count("self.date") > 1),
